@@ -21,6 +21,8 @@ func runC16(ctx *Ctx) {
 	rep.Rule = "pages with a numbered pager (8 URL families incl. escaped paths and extra query parameters; 2..14 pages; current page plain / decorated / self-link; windows with ellipsis; descending order) whose anchors mix relative, absolute, protocol-relative, off-site, javascript:, empty, '#', mailto: and malformed hrefs, with Prev/Next/First/Last anchors and numeric noise (comment counts, calendar, off-site numbers); page URLs with trailing slash, fragment, user info; distinct by (family, algorithm, which of next/prev is non-empty, junk kinds present); non-trivial = at least one of NextPage/PrevPage is non-empty"
 	pn := newCorr("pagenum")
 	pv := newCorr("prevnext")
+	ls := newCorr("linkscore")
+	defer ls.run(ctx)
 	run := func(c pagerCase) {
 		defer func() {
 			if r := recover(); r != nil {
@@ -35,6 +37,7 @@ func runC16(ctx *Ctx) {
 		}
 		d := parseDoc(c.HTML)
 		targets := anchorTargets(d.Root, page)
+		addLinkScoreCases(ls, rep, c.HTML, page, c)
 		for _, algo := range []distiller.PaginationAlgo{distiller.PrevNext, distiller.PageNumber} {
 			name := "prevnext"
 			if algo == distiller.PageNumber {
@@ -141,6 +144,7 @@ func runC16(ctx *Ctx) {
 		}
 	}
 	createAbsCorr(ctx, ctx.pick(6000, 300000)).run(ctx)
+	pageDiffCorr(ctx, ctx.pick(5000, 200000)).run(ctx)
 	// ---- the groups of adjacent numbers as a state machine: random call sequences on the real
 	// MonotonicPageInfoGroups against the model
 	pg := newCorr("pagegroups")
